@@ -20,6 +20,7 @@ import SccacheModel.Driver.Tokens
 import SccacheModel.Driver.Config
 import SccacheModel.Driver.RustArgs
 import SccacheModel.Driver.RustKey
+import SccacheModel.Driver.Shutdown
 
 /-- `modeld <model>`: line-protocol driver, one sub-command per executable model (DESIGN.md C.1) -/
 def main (args : List String) : IO UInt32 := do
@@ -47,4 +48,5 @@ def main (args : List String) : IO UInt32 := do
   | ["config"] => DrvConfig.main *> pure 0
   | ["rustargs"] => DrvRustArgs.main *> pure 0
   | ["rustkey"] => DrvRustKey.main *> pure 0
+  | ["shutdown"] => DrvShutdown.main *> pure 0
   | _ => do IO.eprintln "usage: modeld <model>"; pure 2
